@@ -46,8 +46,8 @@ manifest = {
     "engines": [
         {"name": "vcheck", "path": "/verif/harness", "serves_properties": sorted(CLAIMED.keys()),
          "kind_free_text": "Rust binary: sharded proptest runners + exhaustive small-scope enumerators over real chitchat nodes on a paused tokio clock, independent wire codec, reference models; shrunk failures become JSON replay files"},
-        {"name": "libfuzzer-targets", "path": "/verif/fuzz", "serves_properties": ["C08", "C09"],
-         "kind_free_text": "cargo-fuzz crate: wire_decode (differential decoder), wire_roundtrip (structured), hostile_process (datagram sequences on a fresh node); oracles live in harness/src/fuzzers.rs so corpus files and crash artifacts replay in-process"},
+        {"name": "libfuzzer-targets", "path": "/verif/fuzz", "serves_properties": ["C01","C02","C03","C04","C05","C06","C08","C09","C10","C11","C12","C13","C14","C15","C16","C18","C19","C20"],
+         "kind_free_text": "cargo-fuzz crate: wire_decode (differential decoder), wire_roundtrip (structured), hostile_process (datagram sequences on a fresh node) for C08/C09, and `generated` (engine E10: libFuzzer mutates the choice bytes of the harness's own proptest strategies through a pass-through RNG, oracle = the sub-check's own exec function; needs /verif/vendor/proptest) for the thorough tiers of the others; oracles live in the harness crate so corpus files and crash artifacts replay in-process"},
     ],
     "checks": checks,
     "not_applicable": not_applicable,
